@@ -266,6 +266,29 @@ def gen_pair(seed):
     return out
 
 
+def fixed_cases():
+    """Corners the random recipe reaches rarely: ONE operator of a NON-default domain written against two shipped versions of that domain
+    (ai.onnx.ml LabelEncoder-2 from ml.v3 next to LabelEncoder-4 from ml.v5; only default-domain nodes are ever converted, the other
+    node is emitted as written and the domain imported at the larger version), alone and next to default-domain operators of two versions;
+    and two nodes of one default-domain operator type that are both converted, in the main graph and in sibling If branches."""
+    import spox.opset.ai.onnx.ml.v3 as ml3
+    import spox.opset.ai.onnx.ml.v5 as ml5
+
+    out = []
+    for around in (False, True):
+        x = B.argument(B.Tensor(np.int64, ("N",)))
+        a = ml3.label_encoder(x, keys_int64s=[1, 2, 3], values_int64s=[10, 20, 30], default_int64=-1)
+        b = ml5.label_encoder(x, keys_tensor=np.array([1, 2, 3], np.int64), values_tensor=np.array([100, 200, 300], np.int64),
+                              default_tensor=np.array([0], np.int64))
+        r = MODS[19].add(MODS[17].mul(a, MODS[17].const(np.int64(2))), b) if around else MODS[17].add(a, b)
+        out.append(B.Case({"x": x}, {"out": r}, False, {"fixed": "ml-operator-at-two-versions" + ("+default-domain-mix" if around else "")}))
+    from harness import c02
+    for fc in c02.converted_twice_cases():
+        fc.meta["fixed"] = fc.meta["names"].replace("corner:", "")
+        out.append(fc)
+    return out
+
+
 def run(run: Run) -> int:
     run.check_theorems(PROPS, CONE, thorough_coqchk=(run.tier == "thorough"))
     n = 120 if run.tier == "quick" else 1500
@@ -309,6 +332,15 @@ def run(run: Run) -> int:
             cases.append(c2)
             refs.append(None)
             hist["second build at the newest opset"] += 1
+    for fc in fixed_cases():
+        with Recorder() as rec:
+            B.run_impl(fc)
+        fc.meta["converted"] = rec.calls
+        fc.meta["converted_inline"] = rec.inline_calls
+        fc.coq = None                       # judged by the direct oracle
+        cases.append(fc)
+        refs.append(None)
+        hist["fixed: " + fc.meta["fixed"]] += 1
     # --- direct oracles
     n_sem = 0
     for c, _ in zip(cases, refs):
